@@ -188,6 +188,8 @@ func be32at1(b []byte) uint32 {
 //@ import "github.com/btcsuite/btclog/v2"
 //@ import "github.com/btcsuite/btcd/btcec/v2"
 //@ import "github.com/lightninglabs/lightning-node-connect/hashmailrpc"
+//@ import "time"
+//@ import "net"
 
 // ---- pairing phrase and rendezvous (C17) -------------------------------------------
 
@@ -218,6 +220,7 @@ func sidFor(r, sid [64]byte, serverToClient bool) bool {
 //@   noframe
 //@   ensures implies(err == nil, c != nil && c.connKit != nil && sidFor(c.connKit.receiveSID, sid, true) && sidFor(c.connKit.sendSID, sid, false))
 //@   ensures implies(err == nil, gbn.VerifConnUsable(c.gbnConn) && !closed(c.quit))
+//@   ensures @C11 implies(err == nil, fresh(c) && fresh(c.quit) && trOK(c.transport) && !isnil(c.log))
 
 //@ func NewServerConn(ctx context.Context, serverHost string, client hashmailrpc.HashMailClient, sid [64]byte, logger btclog.Logger, onNewStatus func(status ServerStatus)) (c *ServerConn, err error)
 //@   props C17 C11
@@ -225,6 +228,7 @@ func sidFor(r, sid [64]byte, serverToClient bool) bool {
 //@   noframe
 //@   ensures implies(err == nil, c != nil && c.connKit != nil && sidFor(c.connKit.receiveSID, sid, false) && sidFor(c.connKit.sendSID, sid, true))
 //@   ensures implies(err == nil, gbn.VerifConnUsable(c.gbnConn) && !closed(c.quit))
+//@   ensures @C11 implies(err == nil, fresh(c) && fresh(c.quit) && !isnil(c.log) && !isnil(c.connKit.ctx))
 
 // lemmaSIDDirections: the client's send stream is the server's receive stream
 // and vice versa, and the two directions never share a stream.
@@ -294,7 +298,7 @@ func lemmaPhraseRoundTrip(idx [NumPassphraseWords]int) (in, out [NumPassphraseWo
 //@   requires s != nil
 //@   modifies s.remoteKey, s.mu, events("*")
 //@   ensures @C17,C03 implies(err != nil, s.remoteKey == old(s.remoteKey))
-//@   ensures @C17,C04 implies(err == nil, s.remoteKey == key)
+//@   ensures @C17,C04,C11 implies(err == nil, s.remoteKey == key)
 //@   ensures implies(isnil(s.onRemoteStatic), err == nil)
 
 //@ func (s *ConnData) SetAuthData(data []byte) (err error)
@@ -311,6 +315,95 @@ func lemmaPhraseRoundTrip(idx [NumPassphraseWords]int) (in, out [NumPassphraseWo
 //@   requires s != nil
 //@   modifies s.mu
 //@   ensures @C11 implies(s.remoteKey == nil, same(p, XXPattern)) && implies(s.remoteKey != nil, same(p, KKPattern))
+
+// ---- one live connection per session (C11) ---------------------------------------
+// Sequential clauses of Server.Accept / Client.Dial: the listener / dialer
+// hands out a connection only after the previous one was closed (its quit
+// channel, which Close alone closes, is closed), the connection it returns is
+// the one it remembers, it is a new object, and its two stream ids are the
+// ones derived from the session id currently in force (so both sides move to
+// the key-derived rendezvous after pairing).
+
+//@ field ClientConn.quit closeonly
+//@ field ServerConn.quit closeonly
+//@ field Server.quit closeonly
+
+//@ func (s *ConnData) SID() (sid [64]byte, err error)
+//@   props C11 C17
+//@   trusted
+//@   requires s != nil
+//@   modifies s.mu
+
+//@ func (c *ClientConn) Close() (err error)
+//@   props C11
+//@   trusted
+//@   requires c != nil
+//@   modifies chanstate(c.quit), events("*"), wire()
+//@   ensures closed(c.quit)
+
+//@ func (c *ServerConn) Stop() (err error)
+//@   props C11
+//@   trusted
+//@   requires c != nil
+//@   modifies chanstate(c.quit), events("*"), wire()
+//@   ensures closed(c.quit)
+
+//@ func RefreshClientConn(ctx context.Context, c *ClientConn) (cc *ClientConn, err error)
+//@   props C11 C17
+//@   noframe
+//@   modifies wire(), events("*"), chanlog[struct{}](), chanlog[time.Time](), chanlog[[]byte](), chanlog[int](), chanlog[error]()
+//@   requires !isnil(ctx) && c != nil && c.connKit != nil && trOK(c.transport) && !isnil(c.log)
+//@   ensures @C11 implies(err == nil, fresh(cc) && cc.connKit != nil && fresh(cc.connKit) && !closed(cc.quit) && fresh(cc.quit) && trOK(cc.transport) && !isnil(cc.log))
+//@   ensures @C11,C17 implies(err == nil, cc.connKit.receiveSID == c.connKit.receiveSID && cc.connKit.sendSID == c.connKit.sendSID)
+//@   ensures implies(err != nil, cc == nil)
+
+//@ func RefreshServerConn(s *ServerConn) (sc *ServerConn, err error)
+//@   props C11 C17
+//@   noframe
+//@   modifies wire(), events("*"), chanlog[struct{}](), chanlog[time.Time](), chanlog[[]byte](), chanlog[int](), chanlog[error]()
+//@   requires s != nil && s.connKit != nil && !isnil(s.log) && !isnil(s.connKit.ctx)
+//@   ensures @C11 implies(err == nil, fresh(sc) && sc.connKit != nil && fresh(sc.connKit) && !closed(sc.quit) && fresh(sc.quit) && !isnil(sc.log) && !isnil(sc.connKit.ctx))
+//@   ensures @C11,C17 implies(err == nil, sc.connKit.receiveSID == s.connKit.receiveSID && sc.connKit.sendSID == s.connKit.sendSID)
+//@   ensures implies(err != nil, sc == nil)
+
+// trOK: the client transport is one of the two implementations.
+func trOK(t ClientConnTransport) bool {
+	return (is[*grpcTransport](t) && as[*grpcTransport](t) != nil) || (is[*websocketTransport](t) && as[*websocketTransport](t) != nil)
+}
+
+// clinv / srinv: the remembered connection, if any, uses the stream ids of the
+// remembered session id.
+func clinv(c *Client) bool {
+	return c != nil && c.connData != nil && !isnil(c.ctx) && !isnil(c.log) &&
+		implies(c.mailboxConn != nil, c.mailboxConn.connKit != nil && trOK(c.mailboxConn.transport) && !isnil(c.mailboxConn.log) &&
+			sidFor(c.mailboxConn.connKit.receiveSID, c.sid, true) && sidFor(c.mailboxConn.connKit.sendSID, c.sid, false))
+}
+
+func srinv(s *Server) bool {
+	return s != nil && s.connData != nil && !isnil(s.ctx) && !isnil(s.log) &&
+		implies(s.mailboxConn != nil, s.mailboxConn.connKit != nil && !isnil(s.mailboxConn.log) && !isnil(s.mailboxConn.connKit.ctx) &&
+			sidFor(s.mailboxConn.connKit.receiveSID, s.sid, false) && sidFor(s.mailboxConn.connKit.sendSID, s.sid, true))
+}
+
+//@ func (c *Client) Dial(_ context.Context, _ string) (conn net.Conn, err error)
+//@   props C11
+//@   noframe
+//@   requires clinv(c)
+//@   ensures clinv(c)
+//@   ensures @C11 implies(err == nil, is[*ClientConn](conn) && as[*ClientConn](conn) == c.mailboxConn && c.mailboxConn != nil &&
+//@           c.mailboxConn != old(c.mailboxConn) && !closed(c.mailboxConn.quit))
+//@   ensures @C11 implies(err == nil && old(c.mailboxConn) != nil, closed(old(c.mailboxConn).quit))
+//@   at "mailboxConn, err := NewClientConn(" assert @C11 c.sid == sid
+
+//@ func (s *Server) Accept() (conn net.Conn, err error)
+//@   props C11
+//@   noframe
+//@   requires srinv(s)
+//@   ensures srinv(s)
+//@   ensures @C11 implies(err == nil, is[*ServerConn](conn) && as[*ServerConn](conn) == s.mailboxConn && s.mailboxConn != nil &&
+//@           s.mailboxConn != old(s.mailboxConn) && !closed(s.mailboxConn.quit))
+//@   ensures @C11 implies(err == nil && old(s.mailboxConn) != nil, closed(old(s.mailboxConn).quit))
+//@   at "mailboxConn, err := NewServerConn(" assert @C11 s.sid == sid
 
 // ---- cipher state (C08) ---------------------------------------------------------
 
